@@ -262,7 +262,7 @@ func concCase(prop string, r *rng, tier string) {
 	if err != nil {
 		panic(err)
 	}
-	if err := st.Start(ctx); err != nil {
+	if err := func() error { sc, end := startCtx(); defer end(); return st.Start(sc) }(); err != nil {
 		panic(err)
 	}
 	c := &concRun{sc: sc, st: st, chain: chain, mono: true, headOK: true}
@@ -388,7 +388,7 @@ func gatedCase(prop string, target, head uint64, batch int) {
 	if err != nil {
 		panic(err)
 	}
-	if err := st.Start(ctx); err != nil {
+	if err := func() error { sc, end := startCtx(); defer end(); return st.Start(sc) }(); err != nil {
 		panic(err)
 	}
 	defer st.Stop(ctx) //nolint:errcheck
@@ -452,7 +452,7 @@ func syncDrainCase(prop string, nb int) {
 	if err != nil {
 		panic(err)
 	}
-	if err := st.Start(ctx); err != nil {
+	if err := func() error { sc, end := startCtx(); defer end(); return st.Start(sc) }(); err != nil {
 		panic(err)
 	}
 	defer st.Stop(ctx) //nolint:errcheck
@@ -501,7 +501,7 @@ func tailRaceCase(prop string, t0, to, n int, after bool) {
 	if err != nil {
 		panic(err)
 	}
-	if err := st.Start(ctx); err != nil {
+	if err := func() error { sc, end := startCtx(); defer end(); return st.Start(sc) }(); err != nil {
 		panic(err)
 	}
 	defer st.Stop(ctx) //nolint:errcheck
@@ -622,7 +622,7 @@ func boundaryCase(prop string, n, k int, pendingOnly bool, gateKey string) {
 	if err != nil {
 		panic(err)
 	}
-	if err := st.Start(ctx); err != nil {
+	if err := func() error { sc, end := startCtx(); defer end(); return st.Start(sc) }(); err != nil {
 		panic(err)
 	}
 	defer st.Stop(ctx) //nolint:errcheck
@@ -710,7 +710,7 @@ func tornCase(prop string, n, to, more, batch int) {
 	if err != nil {
 		panic(err)
 	}
-	if err := st.Start(ctx); err != nil {
+	if err := func() error { sc, end := startCtx(); defer end(); return st.Start(sc) }(); err != nil {
 		panic(err)
 	}
 	defer st.Stop(ctx) //nolint:errcheck
